@@ -4,6 +4,7 @@ import LitexModel.Bridge.Simple
 import LitexModel.Bridge.Down
 import LitexModel.Bridge.Up
 import LitexModel.Bridge.Axi2Axl
+import LitexModel.Bridge.Ahb2Wb
 import LitexModel.DriverLib
 /-
   Numeric port encodings of the C09 bridge models for the line protocol (all numbers decimal).
@@ -24,6 +25,8 @@ import LitexModel.DriverLib
   `axi2axl aw` : inputs = AXI master ++ AXI-Lite slave, outputs = AXI slave ++ AXI-Lite master
   `axl2axi size burst prot wid rid` : inputs = AXI-Lite master ++ AXI slave,
                                       outputs = AXI-Lite slave ++ AXI master ++ [aw.prot aw.cache ar.prot ar.cache]
+  `ahb2wb lg shift` : inputs = [haddr hsize htrans hwdata hwrite hsel] ++ Wishbone slave,
+                      outputs = [hrdata hreadyout hresp] ++ Wishbone master
   `wb2axl adrBits shift base` : inputs = Wishbone master ++ AXI-Lite slave, outputs = Wishbone slave ++ AXI-Lite master
 -/
 namespace Litex.Bridge
@@ -114,6 +117,17 @@ def numAxl2Axi (c : L2XCfg) : NumMachine Unit where
     | _, _ => none
   key _ := "()"
 
+def numAhb2Wb (c : AhbCfg) : NumMachine AhbState where
+  init := Ahb2Wb.init
+  step s ins :=
+    match ins.take 6, WbS.ofNums (ins.drop 6) with
+    | [a, sz, tr, wd, wr, sel], some r =>
+      let m : AhbM := { addr := a, size := sz, trans := tr, wdata := wd, write := n2b wr, sel := n2b sel }
+      let o := Ahb2Wb.toMaster s m r
+      some (Ahb2Wb.next c s m r, [o.rdata, b2n o.readyout, b2n o.resp] ++ (Ahb2Wb.toSlave s m).toNums)
+    | _, _ => none
+  key s := toString (repr s)
+
 def openMachine (args : List String) (hin hout : IO.FS.Stream) : Option (IO Bool) :=
   match args with
   | name :: rest =>
@@ -130,6 +144,7 @@ def openMachine (args : List String) (hin hout : IO.FS.Stream) : Option (IO Bool
       | "axi2axl", [aw] => some (serve (numAxi2Axl aw) hin hout)
       | "axl2axi", [size, burst, prot, wid, rid] =>
         some (serve (numAxl2Axi { size := size, burst := burst, prot := prot, wid := wid, rid := rid }) hin hout)
+      | "ahb2wb", [lg, shift] => some (serve (numAhb2Wb { lg := lg, shift := shift }) hin hout)
       | "wb2axl", [ab, shift, base] => some (serve (numWb2Axl { adrBits := ab, shift := shift, base := base }) hin hout)
       | _, _ => none
   | _ => none
